@@ -16,13 +16,13 @@ cp "$demo" "$wt/$sub/"
 dn=$(basename "$demo")
 tests=$(grep -o '^func Test[A-Za-z0-9_]*' "$demo" | sed 's/func //' | paste -sd'|')
 echo "== demo tests: $tests (package $pkg in $sub)"
-( cd "$wt/$sub" && go test -vet=off -count=1 -run "^($tests)\$" . 2>&1 | tail -3 ) > /tmp/mut/confirm-$name.nopatch.log
+( cd "$wt/$sub" && unshare -n sh -c "ip link set lo up 2>/dev/null; go test -vet=off -count=1 -run '^($tests)\$' ." 2>&1 | tail -3 ) > /tmp/mut/confirm-$name.nopatch.log
 np=$(grep -c "^ok" /tmp/mut/confirm-$name.nopatch.log)
 ( cd "$wt" && git apply "$src/patch.diff" ) || { echo "PATCH DOES NOT APPLY"; git -C /repo worktree remove --force "$wt"; exit 2; }
-( cd "$wt/$sub" && go test -vet=off -count=1 -run "^($tests)\$" . 2>&1 | tail -15 ) > /tmp/mut/confirm-$name.patch.log
+( cd "$wt/$sub" && unshare -n sh -c "ip link set lo up 2>/dev/null; go test -vet=off -count=1 -run '^($tests)\$' ." 2>&1 | tail -15 ) > /tmp/mut/confirm-$name.patch.log
 wp=$(grep -c "^FAIL\|^--- FAIL\|panic:" /tmp/mut/confirm-$name.patch.log)
 rm "$wt/$sub/$dn"
-suite=$(/verif/scripts/baseline.sh "$wt" | head -1)
+suite=$(unshare -n sh -c "ip link set lo up 2>/dev/null; /verif/scripts/baseline.sh $wt" | head -1)
 echo "without patch: $( [ $np -ge 1 ] && echo PASS || echo NOT-PASS ); with patch: $( [ $wp -ge 1 ] && echo FAIL-as-expected || echo NOT-FAILING ); suite with patch: $suite"
 git -C /repo worktree remove --force "$wt"
 # now the checks
